@@ -213,7 +213,7 @@ pub fn run(ctx: &Ctx) {
      and either a line break inside a rule or a multi-byte character; rejected documents whose error index is not \
      0; distinct by text.",
   );
-  let n = ctx.tier.pick(60_000, 1_500_000);
+  let n = ctx.tier.pick(500_000, 12_000_000);
   let opts = SynOpts::default();
 
   search(ctx, "ast_spans", n, 260, |t: &mut Tape, st: &mut Stats| {
